@@ -368,7 +368,14 @@ def trace_fuzz(job):
     reg = _REG
     cc = reg.classes_by_name[qual]
     rng = random.Random(seed)
-    hit, checked = random_trace_search(reg, cc, rng, n)
+    try:
+        hit, checked = random_trace_search(reg, cc, rng, n)
+    except Exception:
+        # the harness itself failed (e.g. a contract clause reads a field the changed code no
+        # longer sets): an error of this stand-in, never a crash of the whole check -- the
+        # deductive results decide
+        return dict(name=f'{qual} (random API histories)', runs=0, skipped=0, failures=[],
+                    distinct=0, error='random-history stand-in: ' + traceback.format_exc()[-600:])
     out = dict(name=f'{qual} (random API histories)', runs=checked, skipped=0, failures=[],
                distinct=0)
     if hit is not None:
